@@ -1,6 +1,7 @@
 package c17
 
 import (
+	"encoding/json"
 	"fmt"
 	"os"
 	"path/filepath"
@@ -8,10 +9,12 @@ import (
 	"strconv"
 	"strings"
 	"testing"
+	"time"
 
 	"github.com/xelaj/mtproto"
 	"github.com/xelaj/mtproto/internal/mtproto/objects"
 	"github.com/xelaj/mtproto/telegram/verifh/hx"
+	"github.com/xelaj/mtproto/telegram/verifh/scen"
 	"pgregory.net/rapid"
 	"verif/evid"
 )
@@ -249,4 +252,177 @@ func sortStrings(s []string) {
 			s[j], s[j-1] = s[j-1], s[j]
 		}
 	}
+}
+
+// ---------- client level: delivery to the right caller, PHONE_MIGRATE ----------
+
+type rapidSource struct{ t *rapid.T }
+
+func (r rapidSource) Bytes(label string, n int) []byte { return hx.FixedBytes(r.t, label, n) }
+func (r rapidSource) Int(label string, n int) int      { return rapid.IntRange(0, n-1).Draw(r.t, label) }
+
+type clientCase struct {
+	Scenario *scen.Scenario
+	Errors   map[int]Case // tag -> the rpc_error its request is answered with
+	Migrate  int          // tag that is answered with PHONE_MIGRATE_<DC> (0 = none)
+	DC       int
+	Configured bool
+}
+
+func judgeClient(c clientCase, res *scen.Result, runErr error) (string, error) {
+	if runErr != nil {
+		return "inconclusive", fmt.Errorf("INFRA: %v", runErr)
+	}
+	if res.Died {
+		return "violation", fmt.Errorf("client process died: %s", scen.PanicSite(res.Stderr))
+	}
+	if !res.Connected {
+		return "inconclusive", fmt.Errorf("INFRA: not connected: %s", res.ConnectErr)
+	}
+	if res.Stall != nil {
+		if res.Stall.Verdict == "STALL" || res.Stall.Verdict == "IDLE" {
+			return "violation", fmt.Errorf("calls never return (receive loop %s at %s); warnings %v", res.Stall.Verdict, res.Stall.LoopAt, res.Warnings)
+		}
+		return "inconclusive", fmt.Errorf("INFRA: unfinished: %s", res.Stall.LoopAt)
+	}
+	got := map[int]scen.CallResult{}
+	for _, cr := range res.Calls {
+		got[cr.Tag] = cr
+	}
+	for _, st := range c.Scenario.RPC.Steps {
+		if st.Op != "call" {
+			continue
+		}
+		for _, cs := range st.Calls {
+			for _, r := range cs.Reqs {
+				cr, ok := got[r.Tag]
+				if !ok {
+					return "violation", fmt.Errorf("the call with tag %d never returned", r.Tag)
+				}
+				if cr.Panic != "" {
+					return "violation", fmt.Errorf("the call with tag %d panicked: %s", r.Tag, cr.Panic)
+				}
+				if r.Tag == c.Migrate {
+					if c.Configured {
+						if !cr.OK || cr.Value != scen.Expected(r) {
+							return "violation", fmt.Errorf("tag %d: after PHONE_MIGRATE_%d the request must be repeated at the configured data centre and its answer returned; got ok=%v value=%q err=%q", r.Tag, c.DC, cr.OK, cr.Value, cr.Err)
+						}
+						repeated := false
+						for _, ev := range res.Events {
+							if ev.Kind == "req" && ev.Server == fmt.Sprintf("dc-%d", c.DC) && strings.HasPrefix(ev.Note, fmt.Sprintf("tag=%d ", r.Tag)) {
+								repeated = true
+							}
+						}
+						if !repeated {
+							return "violation", fmt.Errorf("tag %d: the request was not repeated at data centre %d", r.Tag, c.DC)
+						}
+					} else if cr.OK || cr.Err == "" {
+						return "violation", fmt.Errorf("tag %d: PHONE_MIGRATE_%d names a data centre that is not configured, the call must return an error; got %+v", r.Tag, c.DC, cr)
+					}
+					continue
+				}
+				if e, isErr := c.Errors[r.Tag]; isErr {
+					// the structured error of exactly this request, judged by the same model as the function-level check
+					ri, mid := matchRow(e.Text)
+					wantMsg, wantInfo := e.Text, ""
+					if n, perr := strconv.Atoi(mid); ri >= 0 && decimal.MatchString(mid) && perr == nil {
+						wantMsg, wantInfo = rows[ri][0]+"X"+rows[ri][1], fmt.Sprintf("int:%d", n)
+					}
+					if cr.OK || cr.Code != int(e.Code) {
+						return "violation", fmt.Errorf("tag %d: rpc_error(%d,%q) addressed to it arrived as ok=%v code=%d err=%q", r.Tag, e.Code, e.Text, cr.OK, cr.Code, cr.Err)
+					}
+					if ri >= 0 && wantInfo == "" {
+						if cr.Value != e.Text && cr.Value != rows[ri][0]+"X"+rows[ri][1] {
+							return "violation", fmt.Errorf("tag %d: message %q for text %q", r.Tag, cr.Value, e.Text)
+						}
+					} else if cr.Value != wantMsg || cr.Info != wantInfo {
+						return "violation", fmt.Errorf("tag %d: rpc_error(%d,%q) delivered as message=%q parameter=%q, want message=%q parameter=%q", r.Tag, e.Code, e.Text, cr.Value, cr.Info, wantMsg, wantInfo)
+					}
+					continue
+				}
+				if !cr.OK || cr.Value != scen.Expected(r) {
+					return "violation", fmt.Errorf("tag %d: got %q err=%q, want %s (an error addressed to another call must not reach it)", r.Tag, cr.Value, cr.Err, scen.Expected(r))
+				}
+			}
+		}
+	}
+	for _, n := range res.Notes {
+		if strings.Contains(n, "requests arrived") || strings.Contains(n, "not pending") || strings.Contains(n, "no connection") || strings.Contains(n, "warm-up") {
+			return "inconclusive", fmt.Errorf("INFRA: %s", n)
+		}
+	}
+	return "ok", nil
+}
+
+func TestC17Client(t *testing.T) {
+	if hx.ReplayPath() != "" {
+		return
+	}
+	if err := loadCatalogue(); err != nil {
+		t.Fatalf("INFRA: %v", err)
+	}
+	rapid.Check(t, func(t *rapid.T) {
+		s := rapidSource{t}
+		sc := scen.NewResumed(s)
+		n := rapid.IntRange(2, 5).Draw(t, "ncallers")
+		callers := scen.Callers(s, n, 1, 1+rapid.IntRange(0, 500).Draw(t, "base"))
+		c := clientCase{Scenario: sc, Errors: map[int]Case{}}
+		var tags []int
+		for _, cs := range callers {
+			tags = append(tags, cs.Reqs[0].Tag)
+		}
+		steps := []scen.Step{{Op: "call", Calls: callers}, {Op: "await-requests", N: n}}
+		family := rapid.SampledFrom([]string{"errors", "errors", "migrate", "migrate-unconfigured"}).Draw(t, "family")
+		order := scen.Permute(s, tags)
+		switch family {
+		case "errors":
+			for _, tg := range order {
+				it := scen.AnsItem{Tag: tg}
+				if rapid.Bool().Draw(t, "iserr") {
+					row := rapid.SampledFrom(rows).Draw(t, "row")
+					text := rapid.SampledFrom([]string{row[0] + fmt.Sprint(rapid.IntRange(0, 100000).Draw(t, "param")) + row[1], "SOME_UNKNOWN_ERROR", "AUTH_KEY_UNREGISTERED", "100%_%d_%s", row[0] + "abc" + row[1], "FLOOD_WAIT_"}).Draw(t, "text")
+					if strings.HasPrefix(text, "PHONE_MIGRATE_") {
+						text = "USER_MIGRATE_" + strings.TrimPrefix(text, "PHONE_MIGRATE_")
+					}
+					code := int32(rapid.SampledFrom([]int{303, 400, 401, 420, 500, -503}).Draw(t, "code"))
+					it.ErrCode, it.ErrText = code, text
+					c.Errors[tg] = Case{Code: code, Text: text}
+				}
+				steps = append(steps, scen.Step{Op: "answer", Container: rapid.Bool().Draw(t, "container"), Items: []scen.AnsItem{it}})
+			}
+		default:
+			c.DC, c.Migrate = 7, order[0]
+			c.Configured = family == "migrate"
+			if c.Configured {
+				sc.RPC.DCs = []int{7}
+			} else {
+				c.DC = 9
+			}
+			// the migrating request is told to go to another data centre while the other calls are still in flight
+			steps = append(steps, scen.Step{Op: "answer", Items: []scen.AnsItem{{Tag: c.Migrate, ErrCode: 303, ErrText: fmt.Sprintf("PHONE_MIGRATE_%d", c.DC)}}})
+			if c.Configured {
+				steps = append(steps, scen.Step{Op: "await-requests", N: n}) // repeated at dc-7: again n unanswered
+				for _, tg := range order {
+					steps = append(steps, scen.Step{Op: "answer", Server: "dc-7", Items: []scen.AnsItem{{Tag: tg}}})
+				}
+			} else {
+				for _, tg := range order[1:] {
+					steps = append(steps, scen.Step{Op: "answer", Items: []scen.AnsItem{{Tag: tg}}})
+				}
+			}
+		}
+		steps = append(steps, scen.Step{Op: "await-calls"}, scen.Step{Op: "probe", Retry: family == "migrate"})
+		sc.RPC.Steps = steps
+		res, runErr := scen.RunChild(sc, 120*time.Second)
+		verdict, err := judgeClient(c, res, runErr)
+		b, _ := json.Marshal(sc.RPC.Steps)
+		run.Case(verdict != "inconclusive", evid.Hash(b), "client:"+family, "client-verdict:"+verdict)
+		if err != nil {
+			if strings.HasPrefix(err.Error(), "INFRA:") {
+				t.Skipf("%v", err)
+			}
+			p := run.Violation(map[string]any{"ClientLevel": c}, err.Error())
+			t.Fatalf("violation (replay %s): %v", p, err)
+		}
+	})
 }
